@@ -66,11 +66,16 @@ def check_values(tier):
         except Exception as ex:
             viol.append(("dump-raised:%s" % type(ex).__name__, "%s: %r" % (V.short(v), ex)))
             continue
+        def ref_reads(data):
+            try:
+                return R.decode(data)
+            except R.RefCodecError:
+                return R      # never equal to a value: the reference decoder rejects these bytes
         if type(v) is frozenset and len(v) > 1:
             # member order is the sender's choice: compare as the multiset of member encodings + header
-            ok = V.same(R.decode(got), v) and got[:1] == ref[:1] and len(got) == len(ref)
+            ok = V.same(ref_reads(got), v) and got[:1] == ref[:1] and len(got) == len(ref)
         elif _has_fset(v):
-            ok = V.same(R.decode(got), v) and len(got) == len(ref)
+            ok = V.same(ref_reads(got), v) and len(got) == len(ref)
         else:
             ok = got == ref
         if not ok:
